@@ -918,6 +918,26 @@ type Step struct {
 
 func (s Step) Key() string { return s.Kind + "|" + s.JSON + "|" + s.Sum }
 
+// KeyT is Key plus the error text (C09: two schedules of the same bytes run the same code, so the
+// full message must be identical too).  mask, if not nil, is applied to the text first.
+func (s Step) KeyT(mask func(string) string) string {
+	t := s.Txt
+	if mask != nil {
+		t = mask(t)
+	}
+	return s.Key() + "|" + t
+}
+
+// FirstDiffT is FirstDiff over KeyT.
+func FirstDiffT(a, b []Step, mask func(string) string) int {
+	for i := 0; i < len(a) || i < len(b); i++ {
+		if i >= len(a) || i >= len(b) || a[i].KeyT(mask) != b[i].KeyT(mask) {
+			return i
+		}
+	}
+	return -1
+}
+
 func Classify(fmtIdx int, err error) string {
 	switch {
 	case err == io.EOF:
